@@ -24,4 +24,4 @@ require (
 	golang.org/x/sys v0.30.0 // indirect
 )
 
-replace github.com/flamego/flamego => /tmp/flamego-benign-B6VZMw
+replace github.com/flamego/flamego => /tmp/flamego-mut-Iw3iYO
